@@ -2,7 +2,7 @@
 import re
 
 from cfg import cfg_of
-from expr import Exprs, fmt, walk, contains
+from expr import Exprs, fmt, walk, contains, strip_tags
 from mirutil import is_call, dominating_conds, cond_bool, for_loops, local_updates, erase_vars
 from framework import site_of
 import callgraph as cgmod
@@ -133,6 +133,7 @@ def run(F, rep):
     if b2t and t2b and getattr(F, "cfg", "dev") == "dev":
         tp4_rule(F, rep, "C12-TP4")
     io_rule(F, rep, "C12-IO")
+    zbuf_rule(F, rep, "C12-ZBUF")
     if not rep.floor("C12-ANCHOR", sum(1 for x in (b2t, t2b, pk, up) if x), 4, "tuple packing functions"):
         return
     # ------------------------------------------------------------ TP1
@@ -509,3 +510,47 @@ def io_rule(F, rep, rule):
     rep.ob(rule, "buffers are filled with all-or-error reads (read_exact / read_to_end / read_until / decode_all): %d call sites, %d direct read() calls" % (nfull, nbare),
            True, how="trivial", key="%s | summary" % rule)
     rep.floor(rule, nfull, 5, "all-or-error read call sites in the live code (positive control of the matcher)")
+
+
+def zbuf_rule(F, rep, rule):
+    """A one-shot zstd compression fails ("destination buffer too small") unless the output buffer holds
+    compress_bound(input length) bytes - incompressible input needs more than its own length.  For every compress call of
+    the pooled compressor the destination vector must be sized with compress_bound of THIS input: allocated with it right
+    before the call, or grown under a test that compares the buffer's length with that bound (not with the input length)."""
+    n = 0
+    for k, f in sorted(F.funcs.items()):
+        if not re.search(r"^ragc_core::(zstd_pool|segment_compression)::", k) or f.kind == "promoted" or f.d.get("test"):
+            continue
+        ex = None
+        g = None
+        for bi, t in f.calls():
+            if t.get("indirect") or not re.search(r"zstd(_safe)?::.*CCtx.*::(compress|compress2|compress_using_dict)$", t["callee"]):
+                continue
+            ex = ex or Exprs(f)
+            g = g or cfg_of(f)
+            n += 1
+            # every sizing of a byte vector in this body (vec![0; n], resize, reserve, with_capacity)
+            sizings = []
+            for b2, t2 in f.calls():
+                if t2.get("indirect"):
+                    continue
+                if re.search(r"vec::from_elem$|Vec::<T, A>::(resize|reserve|reserve_exact)$|Vec::<T>::with_capacity$", t2["callee"]):
+                    sz = strip_tags(ex.operand(t2["args"][1] if not t2["callee"].endswith("with_capacity") else t2["args"][0]))
+                    sizings.append((b2, t2, sz))
+            def is_bound(e):
+                return contains(e, lambda x: isinstance(x, tuple) and x[0] == "call" and x[1].endswith("compress_bound"))
+            good = [(b2, t2) for b2, t2, sz in sizings if is_bound(sz)]
+            ok, why = False, "no buffer in this body is sized with compress_bound(..)"
+            if good:
+                ok, why = True, "destination sized with compress_bound of the input"
+                for b2, t2 in good:
+                    conds = [c for c in dominating_conds(f, b2, ex) if cond_bool(c[1], c[2]) is not None]
+                    guards = [c for c in conds if contains(strip_tags(c[0]), lambda x: isinstance(x, tuple) and x[0] == "call" and x[1].endswith("::len"))
+                              and not (c[0][0] == "call" and "is_empty" in c[0][1])]
+                    for c in guards:
+                        if not is_bound(strip_tags(c[0])) and contains(strip_tags(c[0]), lambda x: isinstance(x, tuple) and x[0] == "bin" and x[1] in ("Lt", "Le", "Gt", "Ge")):
+                            ok = False
+                            why = "the buffer is grown only under `%s`, which does not compare its length with compress_bound(input): an input slightly longer than an earlier one gets a buffer that is too small" % fmt(strip_tags(c[0]))[:120]
+            rep.ob(rule, "%s: the output buffer of a zstd compression holds compress_bound(input length)" % k.split("::", 1)[-1], ok, detail=why,
+                   site=site_of(f, t), key="%s | %s | output buffer" % (rule, k))
+    rep.floor(rule, n, 1, "zstd one-shot compress calls")
